@@ -79,6 +79,77 @@ theorem bisectLeft_sorted (key : Feat → Int × Int) (kx : Int × Int) (l : Lis
       intro j y hj hy
       exact h2 j y (by omega) hy
 
+/-- `bisect` with any comparison that is monotone along a key-sorted list (true on a prefix, false on the
+    rest): the result is the split point.  Covers `bisect_left` (`l[mid] < x`) and `bisect_right`
+    (`not (x < l[mid])`). -/
+theorem bisect_mono (key : Feat → Int × Int) (P : Feat → Bool) (l : List Feat) (lt : Feat → E Bool)
+    (hs : SortedBy key l) (hlt : ∀ y ∈ l, lt y = .ok (P y))
+    (hmono : ∀ a b, keyLt (key b) (key a) = false → P b = true → P a = true)
+    (fuel lo hi : Nat) (hlo : lo ≤ hi) (hhi : hi ≤ l.length) (hf : hi - lo < fuel)
+    (h1 : ∀ j y, j < lo → l[j]? = some y → P y = true)
+    (h2 : ∀ j y, hi ≤ j → l[j]? = some y → P y = false) :
+    ∃ r, bisectLeft lt l fuel lo hi = .ok r ∧ r ≤ l.length ∧
+      (∀ j y, j < r → l[j]? = some y → P y = true) ∧
+      (∀ j y, r ≤ j → l[j]? = some y → P y = false) := by
+  induction fuel generalizing lo hi with
+  | zero => omega
+  | succ n ih =>
+    simp only [bisectLeft]
+    by_cases hlh : lo < hi
+    · simp only [hlh, if_true]
+      have hmid : (lo + hi) / 2 < l.length := by omega
+      obtain ⟨y, hy⟩ : ∃ y, l[(lo + hi) / 2]? = some y := ⟨l[(lo + hi) / 2], by simp [hmid]⟩
+      have hym : y ∈ l := List.mem_of_getElem? hy
+      simp only [hy, hlt y hym, bind, Except.bind]
+      have hpair := List.pairwise_iff_getElem.1 hs
+      cases hk : P y with
+      | true =>
+        simp only [if_true]
+        apply ih _ _ (by omega) hhi (by omega)
+        · intro j z hj hz
+          by_cases hjm : j < (lo + hi) / 2
+          · have hjl : j < l.length := by omega
+            have hz' : l[j] = z := by
+              have := List.getElem?_eq_getElem hjl; rw [this] at hz; simpa using hz
+            have hy' : l[(lo + hi) / 2] = y := by
+              have := List.getElem?_eq_getElem hmid; rw [this] at hy; simpa using hy
+            have := hpair j ((lo + hi) / 2) hjl hmid hjm
+            rw [hz', hy'] at this
+            exact hmono z y this hk
+          · have : j = (lo + hi) / 2 := by omega
+            subst this
+            rw [hy] at hz
+            cases hz
+            exact hk
+        · exact h2
+      | false =>
+        simp only [Bool.false_eq_true, if_false]
+        apply ih _ _ (by omega) (by omega) (by omega) h1
+        intro j z hj hz
+        by_cases hjm : (lo + hi) / 2 < j
+        · have hjl : j < l.length := by
+            by_cases hc : j < l.length
+            · exact hc
+            · rw [List.getElem?_eq_none (by omega)] at hz; cases hz
+          have hz' : l[j] = z := by
+            have := List.getElem?_eq_getElem hjl; rw [this] at hz; simpa using hz
+          have hy' : l[(lo + hi) / 2] = y := by
+            have := List.getElem?_eq_getElem hmid; rw [this] at hy; simpa using hy
+          have := hpair ((lo + hi) / 2) j hmid hjl hjm
+          rw [hz', hy'] at this
+          cases hz2 : P z with
+          | false => rfl
+          | true => rw [hmono y z this hz2] at hk; cases hk
+        · have : j = (lo + hi) / 2 := by omega
+          subst this
+          rw [hy] at hz
+          cases hz
+          exact hk
+    · simp only [hlh, if_false, pure, Except.pure]
+      refine ⟨lo, rfl, by omega, h1, ?_⟩
+      intro j y hj hy
+      exact h2 j y (by omega) hy
+
 /-- inserting at such a split point keeps the list sorted -/
 theorem insertAt_sorted (key : Feat → Int × Int) (x : Feat) (l : List Feat) (r : Nat) (hr : r ≤ l.length)
     (hs : SortedBy key l)
@@ -118,7 +189,7 @@ theorem insertSorted_sorted {len : Int} {l : List Feat} {d : Dict Nat} {x : Feat
     (fun y hy => collectionLt_line (hl y hy) hx) (l.length + 1) 0 l.length (Nat.zero_le _) (Nat.le_refl _) (by omega)
     (by intro j y hj; omega)
     (by intro j y hj hy; rw [List.getElem?_eq_none (by omega)] at hy; cases hy)
-  simp only [insertSorted, hr1, bind, Except.bind, pure, Except.pure, Except.ok.injEq, Prod.mk.injEq] at h
+  simp only [insertSorted, insertSortedWith, hr1, bind, Except.bind, pure, Except.pure, Except.ok.injEq, Prod.mk.injEq] at h
   rw [← h.1]
   apply insertAt_sorted lkey x l r hr2 hs
   · intro j y hj hy
@@ -127,6 +198,34 @@ theorem insertSorted_sorted {len : Int} {l : List Feat} {d : Dict Nat} {x : Feat
     rw [keyLt_false_iff]
     omega
   · exact hr4
+
+/-- the same for `bisect_right` (add_protocluster / add_subregion) -/
+theorem insertSortedRight_sorted {len : Int} {l : List Feat} {d : Dict Nat} {x : Feat} {l' : List Feat} {d' : Dict Nat}
+    (hs : SortedBy lkey l) (hl : ∀ y ∈ l, LineArea len y.loc) (hx : LineArea len x.loc)
+    (h : insertSortedRight l d x = .ok (l', d')) : SortedBy lkey l' := by
+  obtain ⟨r, hr1, hr2, hr3, hr4⟩ := bisect_mono lkey (fun y => !keyLt (lkey x) (lkey y)) l
+    (fun y => do pure (!(← collectionLt x.loc y.loc))) hs
+    (fun y hy => by simp only [collectionLt_line hx (hl y hy), bind, Except.bind, pure, Except.pure]; rfl)
+    (by
+      intro a b hab hb
+      simp only [Bool.not_eq_true', keyLt_false_iff] at hab hb ⊢
+      omega)
+    (l.length + 1) 0 l.length (Nat.zero_le _) (Nat.le_refl _) (by omega)
+    (by intro j y hj; omega)
+    (by intro j y hj hy; rw [List.getElem?_eq_none (by omega)] at hy; cases hy)
+  unfold insertSortedRight insertSortedWith at h
+  rw [show bisectLeft (fun y => do pure (!(← collectionLt x.loc y.loc))) l (l.length + 1) 0 l.length = .ok r from hr1] at h
+  simp only [bind, Except.bind, pure, Except.pure, Except.ok.injEq, Prod.mk.injEq] at h
+  rw [← h.1]
+  apply insertAt_sorted lkey x l r hr2 hs
+  · intro j y hj hy
+    have := hr3 j y hj hy
+    simpa using this
+  · intro j y hj hy
+    have := hr4 j y hj hy
+    simp only [Bool.not_eq_false', keyLt_iff] at this
+    rw [keyLt_false_iff]
+    omega
 
 theorem regionIndex_sorted (key : Feat → Int × Int) (region : Feat) (l : List Feat) (hs : SortedBy key l)
     (hlt : ∀ y ∈ l, collectionLt region.loc y.loc = .ok (keyLt (key region) (key y))) (i r : Nat)
@@ -416,7 +515,7 @@ theorem step_sorted {s s' : State} (op : Op) (hi : Inv s) (hl : LineSorted s) (h
   cases op with
   | addProto loc =>
     obtain ⟨l, d, hins, rfl⟩ := addProtocluster_ok h
-    have hp := (insertSorted_numbered hi.numP (by
+    have hp := (insertSortedRight_numbered hi.numP (by
       have hnp := nodup_parts hi
       simp only [ids, List.map_cons, List.nodup_cons]
       refine ⟨?_, hnp.1⟩
@@ -436,11 +535,11 @@ theorem step_sorted {s s' : State} (op : Op) (hi : Inv s) (hl : LineSorted s) (h
       · exact hl.locs f (mem5.2 (Or.inr (Or.inr (Or.inl h))))
       · exact hl.locs f (mem5.2 (Or.inr (Or.inr (Or.inr (Or.inl h)))))
       · exact hl.locs f (mem5.2 (Or.inr (Or.inr (Or.inr (Or.inr h)))))
-    · exact insertSorted_sorted (x := ⟨s.nextId, .proto, loc, [], [], []⟩) hl.sP
+    · exact insertSortedRight_sorted (x := ⟨s.nextId, .proto, loc, [], [], []⟩) hl.sP
         (fun y hy => hl.locs y (mem5.2 (Or.inl hy))) hop hins
   | addSub loc =>
     obtain ⟨l, d, hins, rfl⟩ := addSubregion_ok h
-    have hp := (insertSorted_numbered hi.numS (by
+    have hp := (insertSortedRight_numbered hi.numS (by
       have hnp := nodup_parts hi
       simp only [ids, List.map_cons, List.nodup_cons]
       refine ⟨?_, hnp.2.2.1⟩
@@ -460,7 +559,7 @@ theorem step_sorted {s s' : State} (op : Op) (hi : Inv s) (hl : LineSorted s) (h
         · exact hl.locs f (mem5.2 (Or.inr (Or.inr (Or.inl h))))
       · exact hl.locs f (mem5.2 (Or.inr (Or.inr (Or.inr (Or.inl h)))))
       · exact hl.locs f (mem5.2 (Or.inr (Or.inr (Or.inr (Or.inr h)))))
-    · exact insertSorted_sorted (x := ⟨s.nextId, .sub, loc, [], [], []⟩) hl.sS
+    · exact insertSortedRight_sorted (x := ⟨s.nextId, .sub, loc, [], [], []⟩) hl.sS
         (fun y hy => hl.locs y (mem5.2 (Or.inr (Or.inr (Or.inl hy))))) hop hins
   | mkCand pids =>
     simp only [step, bind, Except.bind, pure, Except.pure] at h
